@@ -13,13 +13,51 @@ Record ops (K : Type) : Type := mkOps {
 Arguments zero {K} _. Arguments one {K} _. Arguments add {K} _ _ _. Arguments mul {K} _ _ _.
 Arguments sub {K} _ _ _. Arguments opp {K} _ _. Arguments div {K} _ _ _. Arguments leb {K} _ _ _.
 
-(* rationals, kept in lowest terms so that long products of dyadic floats stay small *)
+(* rationals.  Every number of a correspondence run is a dyadic rational (floats, and halves of
+   them), so instead of a gcd after each operation the common power of two is stripped: exact, lowest
+   terms on dyadics, and linear instead of quadratic on the extracted binary integers. *)
+Fixpoint strip2 (n d : positive) : positive * positive :=
+  match n, d with
+  | xO n', xO d' => strip2 n' d'
+  | _, _ => (n, d)
+  end.
+Definition dred (q : Q) : Q :=
+  match Qnum q with
+  | Z0 => 0%Q
+  | Zpos n => let (n', d') := strip2 n (Qden q) in Zpos n' # d'
+  | Zneg n => let (n', d') := strip2 n (Qden q) in Zneg n' # d'
+  end.
+(* p * d, by shifting while d is even (d is a power of two on dyadics) *)
+Fixpoint pshift (p d : positive) : positive :=
+  match d with xO d' => xO (pshift p d') | xH => p | xI _ => Pos.mul p d end.
+Definition zshift (z : Z) (d : positive) : Z :=
+  match z with Z0 => Z0 | Zpos p => Zpos (pshift p d) | Zneg p => Zneg (pshift p d) end.
+(* n1/d1 + n2/d2 as (numerator, denominator): the common power of two of the denominators is never
+   multiplied out; exact for all rationals *)
+Fixpoint dadd (n1 : Z) (d1 : positive) (n2 : Z) (d2 : positive) : Z * positive :=
+  match d1, d2 with
+  | xO d1', xO d2' => let (n, d) := dadd n1 d1' n2 d2' in (n, xO d)
+  | xH, _ => (Z.add (zshift n1 d2) n2, d2)
+  | _, xH => (Z.add n1 (zshift n2 d1), d1)
+  | _, _ => (Z.add (Z.mul n1 (Zpos d2)) (Z.mul n2 (Zpos d1)), Pos.mul d1 d2)
+  end.
+Definition qadd (a b : Q) : Q := let (n, d) := dadd (Qnum a) (Qden a) (Qnum b) (Qden b) in dred (n # d).
+Definition qmulq (a b : Q) : Q := dred (Z.mul (Qnum a) (Qnum b) # pshift (Qden a) (Qden b)).
 Definition Qo : ops Q := {|
   zero := 0%Q; one := 1%Q;
-  add := fun a b => Qred (a + b); mul := fun a b => Qred (a * b);
-  sub := fun a b => Qred (a - b); opp := fun a => Qopp a;
-  div := fun a b => Qred (a / b);
+  add := qadd; mul := qmulq;
+  sub := fun a b => qadd a (Qopp b); opp := fun a => Qopp a;
+  div := fun a b => dred (a / b);
   leb := Qle_bool |}.
+
+(* sanity: the optimised operations agree with Q's own on non-dyadic samples too *)
+Example Qo_ops_sane :
+  (Qeq_bool (qadd (3 # 20) (-7 # 12)) ((3 # 20) + (-7 # 12)) &&
+   Qeq_bool (qadd (5 # 8) (3 # 32)) ((5 # 8) + (3 # 32)) &&
+   Qeq_bool (qadd (-5 # 1) (3 # 64)) ((-5 # 1) + (3 # 64)) &&
+   Qeq_bool (qmulq (-5 # 6) (9 # 40)) ((-5 # 6) * (9 # 40)) &&
+   Qeq_bool (div Qo (7 # 4) (1 + 1)) (7 # 8))%bool = true.
+Proof. vm_compute. reflexivity. Qed.
 
 Definition Ro : ops R := {|
   zero := 0%R; one := 1%R;
